@@ -176,20 +176,106 @@ def showTravId (n : Nat) (x : Nat) : String := if x == n then "-" else s!"V{x}"
 
 /-! ### the operations -/
 
+/-- vertex-filter family for `ff_result`: filter `k` accepts `x` iff bit `code x mod 64` of `k`
+    is set (`code None = 0`, `code Vi = i+1`); pseudo-error vertices always pass -/
+def vfilter (n : Nat) (k : Option Nat) (x : Nat) : Bool :=
+  match k with
+  | none => true
+  | some k => if x > n then true else k.testBit ((if x == n then 0 else x + 1) % 64)
+
+inductive TravKind | bft | dftr | dfti
+  deriving DecidableEq
+
+/-- one traversal call: pre-flight checks, resolution, pure loop, cut at the first error.
+    Returns (listed prefix, error raised after it if any). -/
+def traverse (w : World) (kind : TravKind) (uni : Option VId) (start : VId) (dir unk : Nat)
+    (via res : Option Nat) : List Nat × Option Err :=
+  let emptyUni := match uni with | some u => (w.members u).isEmpty | none => false
+  let startOut := match uni with | some u => !((w.members u).contains start) | none => false
+  if emptyUni then (if kind == .bft then ([], none) else ([], some .value))
+  else if startOut then ([], some .value)
+  else
+    let r := resolve w dir unk via
+    let inU : Nat → Bool := fun x =>
+      if x > r.n then true
+      else match uni with
+        | none => true
+        | some u => x < r.n && (w.members u).contains x
+    let ffr := vfilter r.n res
+    let out := match kind with
+      | .bft => T.bft r.nb inU ffr r.fuel start
+      | .dftr => T.dftRecursive r.nb inU ffr r.fuel start
+      | .dfti => T.dftIterative r.nb inU ffr r.fuel start
+    cutOutput r out
+
+inductive SearchKind | bfs | dfsr | dfsi
+  deriving DecidableEq
+
+/-- one search call (always default settings); `.inl e` = raised, `.inr x?` = returned -/
+def search (w : World) (kind : SearchKind) (uni : Option VId) (start : VId) (attr val : Nat) :
+    Err ⊕ Option Nat :=
+  let emptyUni := match uni with | some u => (w.members u).isEmpty | none => false
+  let startOut := match uni with | some u => !((w.members u).contains start) | none => false
+  if emptyUni then (if kind == .bfs then .inr none else .inl .value)
+  else if startOut then .inl .value
+  else
+    let r := resolve w 0 2 none
+    let inU : Nat → Bool := fun x =>
+      if x > r.n then true
+      else match uni with
+        | none => true
+        | some u => x < r.n && (w.members u).contains x
+    let p : Nat → Bool := fun x =>
+      if x > r.n then true else if x == r.n then false else (w.attrs x).contains (attr, val)
+    let res := match kind with
+      | .bfs => T.bfs r.nb inU p r.fuel start
+      | .dfsr => T.dfsRecursive r.nb inU p r.fuel start
+      | .dfsi => T.dfsIterative r.nb inU p r.fuel start
+    match res with
+    | none => .inr none
+    | some x => if x > r.n then .inl ((r.errs.getD (x - r.n - 1) none).getD .other) else .inr (some x)
+
 def step (st : DState) (line : String) : DState × String :=
   let w := st.w
   let toks := (line.trimAscii.toString.splitOn " ").filter (· ≠ "")
   let bad : DState × String := (st, "bad-op " ++ line.trimAscii.toString)
-  match toks with
-  | [] => (st, "")
-  | ["reset"] => ({ st with w := World.init }, "ok")
-  | ["obs"] => (st, obs w)
-  | _ =>
+  let generic : Unit → DState × String := fun _ =>
     match parseOp toks with
     | some op =>
       let (w', a) := M.step filterTable w op
       ({ st with w := w' }, showAns a)
     | none => bad
+  match toks with
+  | [] => (st, "")
+  | ["reset"] => ({ st with w := World.init }, "ok")
+  | ["obs"] => (st, obs w)
+  | [kind, uni, start, dir, unk, via, res, mode] =>
+    if kind == "bft" || kind == "dftr" || kind == "dfti" then
+      match parseOptV uni, parseId 'V' start, dir.toNat?, unk.toNat?, parseOptNat via, parseOptNat res with
+      | some uni, some start, some dir, some unk, some via, some res =>
+        if !(w.vOK start) || !(uni.all w.isUni) then bad else
+        let k : TravKind := if kind == "bft" then .bft else if kind == "dftr" then .dftr else .dfti
+        let (out, e) := traverse w k uni start dir unk via res
+        let lst := showList (showTravId w.nV) out
+        if mode == "gen" then
+          (st, "gen " ++ lst ++ (match e with | none => " end" | some e => " " ++ errLine e))
+        else
+          (st, match e with | none => "ok " ++ lst | some e => errLine e)
+      | _, _, _, _, _, _ => bad
+    else generic ()
+  | [kind, uni, start, attr, val] =>
+    if kind == "bfs" || kind == "dfsr" || kind == "dfsi" then
+      match parseOptV uni, parseId 'V' start, attr.toNat?, val.toNat? with
+      | some uni, some start, some attr, some val =>
+        if !(w.vOK start) || !(uni.all w.isUni) then bad else
+        let k : SearchKind := if kind == "bfs" then .bfs else if kind == "dfsr" then .dfsr else .dfsi
+        match search w k uni start attr val with
+        | .inl e => (st, errLine e)
+        | .inr none => (st, "ok -")
+        | .inr (some x) => (st, s!"ok V{x}")
+      | _, _, _, _ => bad
+    else generic ()
+  | _ => generic ()
 
 partial def loop (h : IO.FS.Stream) (out : IO.FS.Stream) (st : DState) : IO Unit := do
   let line ← h.getLine
